@@ -252,6 +252,25 @@ func cmdConc(args []string) int {
 		}
 	}()
 
+	// index churn by its own goroutine (create / add / drop of short-lived indexes), CONCURRENT with the administration
+	// goroutine above: writers queueing for the DB lock while a compaction or a snapshot reads
+	wg.Add(1)
+	go func() {
+		defer wg.Done()
+		rng := rand.New(rand.NewSource(*seed * 104729))
+		for i := 0; i < 25; i++ {
+			time.Sleep(time.Duration(rng.Intn(600)) * time.Microsecond)
+			name := fmt.Sprintf("churn%d", i)
+			call("VCreate", func() (bool, map[string]any) {
+				return e.VCreate(name, distance.Euclidean, 0, 0, distance.Float32, "", nil, nil, nil) == nil, nil
+			}, nil)
+			call("VAdd", func() (bool, map[string]any) {
+				return e.VAdd(name, "y", []float32{1, 2}, map[string]any{"content": "churn"}) == nil, nil
+			}, map[string]any{"vids": []string{}})
+			call("VDeleteIndex", func() (bool, map[string]any) { return e.VDeleteIndex(name) == nil, nil }, nil)
+		}
+	}()
+
 	finished := make(chan struct{})
 	go func() { wg.Wait(); close(finished) }()
 	watchdog := func(what string) int {
